@@ -171,7 +171,9 @@ def afcli(run):
     bad[1]["lines"][0][1] = "TYPE-9"            # one field of the text written
     bad[2]["where"] = "stdout"                  # claims the output went to STDOUT although -o was given
     jr = C.judge("AgpTpfTrace", bad, run.dir, consts="NRandomAsm = 0", spec="TraceSpec", label="st-afcli")
-    expect("asm-format CLI: one output field / output destination (model drift)", jr, [2, 3], kind="M")
+    # the text clause is C05's (a violation), the destination clause is model drift
+    jr["X"] = [v for v in jr["V"] if str(v[2]).startswith("C05.asm_format_output")] + jr["M"]
+    expect("asm-format CLI: one output field (C05.asm_format_output) / output destination (model drift)", jr, [2, 3], kind="X")
 
 
 def clobber(run):
